@@ -121,6 +121,7 @@ Definition after_handshake (s : sync) : sync :=
 Lemma handshake_steps w invs :
   cw_chan w = MVersion :: invs -> Forall is_inv invs -> cw_reqs w = [] ->
   handshake_complete (node_sync w) = false -> ready (node_sync w) = false ->
+  pending_sync (node_sync w) = false -> was_in_sync (node_sync w) = false ->
   requested (rq (node_sync w)) = [] ->
   let s1 := after_handshake (node_sync w) in
   let reply := answer_getheaders M parent_of (best w) (locator (node_sync w) 0) in
@@ -129,11 +130,11 @@ Lemma handshake_steps w invs :
        (match (handle_headers MAXR LIM s1 reply).2 with Some l => getdata_of l | None => [] end)
        (add_new (cw_heard w) (ids_of reply)).
 Proof.
-  intros Hc Hinv Hr Hhc Hrd Hreq s1 reply.
+  intros Hc Hinv Hr Hhc Hrd Hpd Hws Hreq s1 reply.
   destruct (step_version MAXR LIM HT HDT BT DELTA M parent_of w invs Hc) as [K0 N0].
   rewrite Hr in N0. change (Sync _ _ _ _ _ _ _ _ _ true _ _ _ _ _ _ _) with (after_version (node_sync w)) in N0.
   pose proof (deliver_invs MAXR LIM HT HDT BT DELTA M parent_of invs (snext w)) as Hi. rewrite N0 in Hi.
-  cbn [cw_chan cw_node cw_peer cw_reqs cw_heard] in Hi. specialize (Hi eq_refl Hinv Hrd).
+  cbn [cw_chan cw_node cw_peer cw_reqs cw_heard] in Hi. specialize (Hi eq_refl Hinv Hrd Hpd Hws).
   set (w1 := CW (with_node w (after_version (node_sync w))) (cw_peer w) [] [] (cw_heard w)) in *.
   assert (E1 : settle (1 + length invs) w = w1).
   { rewrite settle_add. assert (K0' : skind w <> 0) by (rewrite K0; discriminate).
@@ -204,6 +205,8 @@ Record FreshFork (B C : list Z) (w : cworld) (f i : nat) : Prop := {
   ff_saved : last C = Some (last_saved (rq (node_sync w)));
   ff_hc : handshake_complete (node_sync w) = false;
   ff_ready : ready (node_sync w) = false;
+  ff_pend : pending_sync (node_sync w) = false;
+  ff_was : was_in_sync (node_sync w) = false;
   ff_chan : exists invs, cw_chan w = MVersion :: invs /\ Forall is_inv invs;
   ff_reqs : cw_reqs w = [];
 }.
@@ -216,7 +219,8 @@ Proof.
   pose proof (ff_chainB _ _ _ _ _ F) as HcB. pose proof (ff_chainC _ _ _ _ _ F) as HcC.
   pose proof (chain_NoDup parent_of B HcB) as HndB. pose proof (chain_NoDup parent_of C HcC) as HndC.
   pose proof (handshake_steps MAXR LIM HT HDT BT DELTA M parent_of w invs Hc Hinv (ff_reqs _ _ _ _ _ F)
-                (ff_hc _ _ _ _ _ F) (ff_ready _ _ _ _ _ F) (ff_req _ _ _ _ _ F)) as E.
+                (ff_hc _ _ _ _ _ F) (ff_ready _ _ _ _ _ F) (ff_pend _ _ _ _ _ F) (ff_was _ _ _ _ _ F)
+                (ff_req _ _ _ _ _ F)) as E.
   cbv zeta in E. rewrite (ff_best _ _ _ _ _ F), (ff_reply _ _ _ _ _ F) in E.
   set (s1 := after_handshake (node_sync w)) in *.
   set (lh := last_saved (rq (node_sync w))) in *.
@@ -412,7 +416,7 @@ Definition clean_forked (M : nat) (parent_of : Z -> Z) (w : cworld) : bool :=
   negb (start_height s =? -1) &&
   match requested (rq s), to_request (rq s) with [], [] => true | _, _ => false end &&
   match last C with Some x => x =? last_saved (rq s) | None => false end &&
-  negb (handshake_complete s) && negb (ready s) &&
+  negb (handshake_complete s) && negb (ready s) && negb (pending_sync s) && negb (was_in_sync s) &&
   match cw_chan w with MVersion :: invs => forallb is_invb invs | _ => false end &&
   match cw_reqs w with [] => true | _ => false end.
 
